@@ -912,7 +912,7 @@ fn run_subject(a: &Args, name: &str) {
     let from = a.get_u64("from", 0) as usize;
     let only = a.get("only").and_then(|s| s.parse::<usize>().ok());
     let mut tr = Tracer::new(&a.out, &format!("c01-{name}-f{from}"));
-    tr.max_events = 1500;
+    tr.max_events = 4000;
     let mut st = Stats::default();
     let all_ctx = a.thorough() && a.get("allctx").is_some();
     let progress = a.out.join(format!("progress-{name}.txt"));
@@ -944,10 +944,10 @@ fn run_subject(a: &Args, name: &str) {
                 Ok(Ok(info)) => {
                     st.trains_ok += 1;
                     tr.ev(json!({"op":"train","c":name,"d":digest(&s.train),"ok":true,"err":"","info":info}));
-                    // the 256-symbol code tables of the contextual coders cost TLC ~40 ms each: quick judges the baseline
-                    // tree and one sampled context tree on a rotating quarter of the sessions, thorough four trees on all
+                    // the contextual coders have up to 1025 trees of 256 codes: quick judges the baseline tree and one
+                    // sampled context tree on a rotating half of the sessions, thorough four trees on every session
                     let ctx_like = fam == "ctx" || fam == "ctxil";
-                    let want_mech = !ctx_like || a.thorough() || (si + idx) % 4 == 0;
+                    let want_mech = !ctx_like || a.thorough() || (si + idx) % 2 == 0;
                     let mseed = ((a.seed ^ si as u64) & !(1 << 40)) | if a.thorough() { 1 << 40 } else { 0 };
                     match guard(|| if want_mech { codec.mech(name, mseed, all_ctx) } else { vec![] }) {
                         Ok(evs) => {
